@@ -700,6 +700,19 @@ theorem step_rev (fixed : Bool) (st : St) (op : Op) :
       · exact .inl rfl
       · exact .inr ⟨rfl, rfl⟩
 
+theorem nodup_map_tag (r : Nat) (l : List Mod) (h : l.Nodup) :
+    (l.map (fun x => (r, x))).Nodup := by
+  induction l with
+  | nil => exact List.nodup_nil
+  | cons a l ih =>
+    rw [List.nodup_cons] at h
+    rw [List.map_cons, List.nodup_cons]
+    refine ⟨?_, ih h.2⟩
+    intro hm
+    obtain ⟨x, hx, e⟩ := List.mem_map.mp hm
+    cases e
+    exact h.1 hx
+
 theorem runsOf_nodup (fixed : Bool) (ops : List Op) :
     ∀ st, J st.cache →
       (st.cache.log.map (fun x => (st.rev, x)) ++ runsOf fixed st ops).Nodup ∧
@@ -709,7 +722,7 @@ theorem runsOf_nodup (fixed : Bool) (ops : List Op) :
     intro st hj
     simp only [runsOf, List.append_nil]
     refine ⟨?_, fun _ h => by cases h⟩
-    exact List.Nodup.map (fun a b e => by cases e; rfl) hj.1
+    exact nodup_map_tag _ _ hj.1
   | cons op ops ih =>
     intro st hj
     have hj' := step_J fixed st op hj
@@ -741,7 +754,7 @@ theorem runsOf_nodup (fixed : Bool) (ops : List Op) :
       simp only [List.map_nil, List.nil_append] at ih1 ⊢
       constructor
       · rw [List.nodup_append]
-        refine ⟨List.Nodup.map (fun a b e => by cases e; rfl) hj.1, ih1, ?_⟩
+        refine ⟨nodup_map_tag _ _ hj.1, ih1, ?_⟩
         intro a ha b hb e
         subst e
         obtain ⟨x, _, rfl⟩ := List.mem_map.mp ha
